@@ -80,6 +80,15 @@ func (w *Worker) libSite() string {
 }
 
 func (w *Worker) isHarnessFn(fn *ssa.Function) bool {
+	if v, ok := w.harnessFn[fn]; ok {
+		return v
+	}
+	v := w.isHarnessFn0(fn)
+	w.harnessFn[fn] = v
+	return v
+}
+
+func (w *Worker) isHarnessFn0(fn *ssa.Function) bool {
 	for f := fn; f != nil; f = f.Parent() {
 		fn = f
 	}
@@ -145,7 +154,7 @@ func (w *Worker) callFunction(fn *ssa.Function, args []Val, bind []Val) Val {
 func (w *Worker) run(fr *Frame) Val {
 	block := fr.fn.Blocks[0]
 	var prev *ssa.BasicBlock
-	visits := map[int]int{}
+	visits := make([]int, len(fr.fn.Blocks))
 	for {
 		visits[block.Index]++
 		if visits[block.Index] > w.unwindLimit {
